@@ -2,4 +2,8 @@ import layouts
 
 CHECKS = {
     "C01": layouts.check_c01,
+    "C02": layouts.check_c02,
+    "C04": layouts.check_c04,
+    "C05": layouts.check_c05,
+    "C08": layouts.check_c08,
 }
